@@ -39,6 +39,7 @@ fn gen_payload(rng: &mut Rng) -> String {
         }
     }
     let rows = 1 + rng.usize(4);
+    let late_raster = rng.chance(1, 4);
     for r in 0..rows {
         let n = rng.usize(12);
         for _ in 0..n {
@@ -64,6 +65,10 @@ fn gen_payload(rng: &mut Rng) -> String {
         }
         if r + 1 < rows || rng.chance(1, 3) {
             s.push('-');
+        }
+        // raster attributes may also come (again) after data: the last four-parameter declaration is the one that holds
+        if late_raster && r + 1 < rows && rng.chance(1, 2) {
+            s.push_str(&format!("\"1;1;{};{}", rng.range(1, 40), rng.range(1, 30)));
         }
     }
     s
@@ -97,7 +102,8 @@ fn model_extent(payload: &str) -> (Option<(i64, i64)>, i64, Option<i64>) {
                 if let Some(c) = cur {
                     nums.push(c);
                 }
-                if nums.len() == 4 && declared.is_none() {
+                if nums.len() == 4 {
+                    // a later declaration replaces an earlier one (columns drawn before it still count against its width)
                     declared = Some((nums[2], nums[3]));
                 }
                 // the short form "Pan;Pad;Pn (only when it is the payload's only raster attribute, before any data)
@@ -195,7 +201,10 @@ fn check_payload(ctx: &mut Ctx, case: &PayloadCase) {
                 if (0..=2048).contains(&dw) && (0..=2048).contains(&dh) {
                     let bad_h = h as i64 != dh;
                     // a picture without rows has no width to speak of
-                    let bad_w = dh > 0 && ((w as i64) < dw || (max_x <= dw && w as i64 != dw));
+                    // (a width declared again after data: the engine keeps the wider of what it has; only a single leading
+                    // declaration pins the width)
+                    let redeclared = case.payload.matches('"').count() > 1 || !case.payload.starts_with('"');
+                    let bad_w = !redeclared && dh > 0 && ((w as i64) < dw || (max_x <= dw && w as i64 != dw));
                     if bad_h || bad_w {
                         ctx.violation(
                             if bad_h { "sixel-declared-height" } else { "sixel-declared-width" },
